@@ -251,7 +251,8 @@ Definition agent_send (cfg : config) (c : chain) (cs1 : cstate) (p : packet) (d 
   match p_recv p, delivered_token cfg p with
   | Some Agent, Some (T, kin) =>
       let feer := fee * kin in
-      if (p_amount p =? 0) || (d <=? feer) then (3, cs1, None)
+      (* the endpoint refuses this chain as destination inside the EVM (the inner call reverts) *)
+      if (p_amount p =? 0) || (d <=? feer) || Nat.eqb c dst2 then (3, cs1, None)
       else
         let L := d - feer in
         let amt2 := match bound cfg c T dst2 with
